@@ -79,7 +79,7 @@ def build_inputs(ck, n_valid, max_per_kind):
     rng = random.Random("t1/%d" % ck.seed)
     valid = [t for _, t in corpus.repo_invocations()] + t2.EDGE + t2.gen_texts(rng, n_valid)
     toks = tokenize(ck, valid)
-    inputs = [("valid", t) for t in valid]
+    inputs = [("valid", t) for t in valid] + [("zoo", t) for t in t2.ZOO]
     for t, tk in zip(valid, toks):
         if tk is None:
             continue
